@@ -2,7 +2,7 @@
    ExtrOcamlBasic only; N/Z/positive stay inductive. *)
 Require Extraction.
 Require Import ExtrOcamlBasic.
-From DV Require Import Lib.Base Wire.Names Wire.Sig Wire.Utf8 Wire.Body Wire.Message Spec.NamesSpec Spec.Utf8Spec Spec.SigSpec Spec.Codec.
+From DV Require Import Lib.Base Wire.Names Wire.Sig Wire.Utf8 Wire.Body Wire.Message Spec.NamesSpec Spec.Utf8Spec Spec.SigSpec Spec.Codec Wire.HeaderEdit.
 (* executable characterisation of what the code accepts for unique names (proved equal to the model in Proofs/NamesProofs.v) *)
 Extraction Language OCaml.
 Extraction "model_wire.ml"
@@ -11,4 +11,5 @@ Extraction "model_wire.ml"
   spec_interface spec_error_name spec_member spec_path spec_bus_name spec_utf8 spec_signature spec_single_signature
   parse_sig array_nest struct_nest dict_nest
   validate_body loader_new feed feed_all demarshal bytes_needed
-  spec_decode_message spec_encode_message print_ty enc dec_seq.
+  spec_decode_message spec_encode_message print_ty enc dec_seq
+  build apply_edit swap_order copy_msg ty_of_val sig_of_vals.
